@@ -175,6 +175,9 @@ func WrapParens(t *Term) *Term {
 var mutPool = []Tok{
 	Id("attributes"), Id("AND"), Id("OR"), Id("NOT"), Id("hasPrefix"), Id("x"), Id("foo"),
 	Str("x"), Str(""), P(":"), P("."), P("="), P("!"), P("("), P(")"), P(","), P("-"),
+	// lexemes outside the documented language (Go-style comments are what a
+	// Go scanner based lexer would swallow silently)
+	Ill("/* c */"), Ill("// c\n"), Ill("/*\"*/"), Ill("/**/"), Ill(";"), Ill("+"),
 }
 
 // Mutate applies one token-level mutation and describes it.
